@@ -66,6 +66,37 @@ func runC16(w *World, r *Report) {
 					eq = true
 				}
 			}
+			// the same equality spelled as "same length, and the cursor up to that length equals the exclusion"
+			for _, rel := range relsOfConds(alt.Conds) {
+				if rel.Op != "==" {
+					continue
+				}
+				for _, side := range [][2]ssa.Value{{rel.L, rel.R}, {rel.R, rel.L}} {
+					sl, isS := peel(side[0]).(*ssa.Slice)
+					if !isS || Path(sl.X) != "param:cursor" || sl.Low != nil || sl.High == nil {
+						continue
+					}
+					lenOf := func(v ssa.Value) ssa.Value {
+						if c, isC := peel(v).(*ssa.Call); isC {
+							if b, isB := c.Call.Value.(*ssa.Builtin); isB && b.Name() == "len" {
+								return c.Call.Args[0]
+							}
+						}
+						return nil
+					}
+					isCursor := func(v ssa.Value) bool { return v != nil && Path(v) == "param:cursor" }
+					isOther := func(v ssa.Value) bool { return v != nil && sameVal(v, side[1]) }
+					if h := lenOf(sl.High); !isCursor(h) && !isOther(h) {
+						continue
+					}
+					for _, r2 := range relsOfConds(alt.Conds) {
+						a, b := lenOf(r2.L), lenOf(r2.R)
+						if r2.Op == "==" && (isCursor(a) && isOther(b) || isCursor(b) && isOther(a)) {
+							eq = true
+						}
+					}
+				}
+			}
 			for _, c := range alt.Conds {
 				if cc, ok := peel(c.V).(*ssa.Call); ok && c.Pol && isCallTo(cc, "slices.Contains") && Path(cc.Call.Args[0]) == "param:excludedPaths" && Path(cc.Call.Args[1]) == "param:cursor" {
 					eq = true
